@@ -99,16 +99,19 @@ def decryptPlain (P : Prims) (d : Bytes) (password : Bytes) : Outcome (Bytes × 
     else (plainKey P d password).map
       (fun k => (k, bip38_decrypt_asg0 (decodedEncryptedKey_2 := flag.toNat)))
 
+/-- the pass factor of an EC-multiplied key (ec_mult.go:189-197) -/
+def passFactorOf (P : Prims) (useLotSequence : Bool) (password ownerEntropy : Bytes) : Outcome Bytes :=
+  if bip38_decryptECMult_1 (useLotSequence := useLotSequence) then do
+    let ownerSalt ← slice ownerEntropy 0 4
+    let prefactor := P.scrypt password ownerSalt 16384 8 8 32
+    pure (P.dsha256 (prefactor ++ ownerEntropy))
+  else pure (P.scrypt password ownerEntropy 16384 8 8 32)
+
 /-- the key recovery of `decryptECMult` (ec_mult.go:186-231) -/
 def ecKey (P : Prims) (d : Bytes) (password : Bytes) (useLotSequence : Bool) : Outcome Bytes := do
   let addressHash ← slice d 3 7
   let ownerEntropy ← slice d 7 15
-  let passFactor ←
-    if bip38_decryptECMult_1 (useLotSequence := useLotSequence) then do
-      let ownerSalt ← slice ownerEntropy 0 4
-      let prefactor := P.scrypt password ownerSalt 16384 8 8 32
-      pure (P.dsha256 (prefactor ++ ownerEntropy))
-    else pure (P.scrypt password ownerEntropy 16384 8 8 32)
+  let passFactor ← passFactorOf P useLotSequence password ownerEntropy
   let passPoint ← P.baseMul passFactor
   let key := P.scrypt passPoint (addressHash ++ ownerEntropy) 1024 1 1 64
   let dk1 ← slice key 0 32
